@@ -195,6 +195,31 @@ func checks() map[string]*Check {
 		Rule:   "each run = one seed-determined sequence of public API calls (NewRaft with boundary options, Bootstrap variants, Start/Stop/Restart in any order and repetition, Status, Configuration, String of every state and operation type, submissions of all types incl. an invalid one with nil/empty/large payloads and 0/tiny/normal timeouts, AddServer/RemoveServer of self/unknown/duplicate ids, Await twice) against a single node or a 3-node cluster whose target node was driven into leader / follower / pre-candidate / candidate / shutdown / deposed leader, with concurrent cluster activity; every call runs under panic capture and a hang watchdog, every future is timed, and a committed membership change must resolve its future without retrying. A panic in a library goroutine kills the child and is reported from its stderr",
 		Assume: []string{"hang bound: 20 s + 5 s with two goroutine dumps; a machine stall > 1 s makes the run inconclusive instead", "future slack 2 s"}})
 
+	windowAssume := []string{
+		"real time: the guarded-window verdicts are conditional on preconditions measured on the run (heartbeat gaps, scheduler stalls, round-trip times); a run that does not meet them is inconclusive, never violated",
+	}
+	add(&Check{ID: "C16", Level: "exploration", Props: []string{"C16"},
+		Runs: []RunSpec{
+			{Scen: "w2.disrupt", Params: "et=120,hb=12,lease=40", Quick: 48, Thorough: 1200, Par: 8},
+			{Scen: "w2.disrupt", Params: "et=200,hb=15,lease=60", Quick: 16, Thorough: 400, Par: 8},
+			{Scen: "w2.lingering", Params: "et=150,hb=15,lease=50,opcap=100000", Quick: 16, Thorough: 400, Par: 8},
+		},
+		NT:     func(r *Result) bool { return cnt(r, "c16.windows") > 0 && cnt(r, "msg.RV") > 0 },
+		Rule:   "each run = one guarded window on a stable 3- or 5-voter cluster (optional non-voter): a minority is isolated symmetrically / inbound-only / outbound-only for 0.5-12 election timeouts, crashed and restarted, rejoined through duplicating links, or removed and left running, while clients write to the leader; inside the window no majority-side node may persist a higher term, nobody may become leader, and the leader's samples must stay leader of the same term. Non-trivial: outsiders sent vote requests during the run",
+		Assume: append([]string{"precondition measured per run: gaps between delivered heartbeats on majority links < 1/2 election timeout, scheduler stall < 1/4 election timeout"}, windowAssume...)})
+	add(&Check{ID: "C17", Level: "exploration", Props: []string{"C17"},
+		Runs: []RunSpec{
+			{Scen: "w2.lease", Params: "et=600,hb=30,lease=100,opcap=100000", Quick: 24, Thorough: 600, Par: 8},
+			{Scen: "w2.deposedread", Params: "read=SR,et=600,hb=30,lease=100,opcap=2000", Quick: 8, Thorough: 200, Par: 8},
+			{Scen: "w2.freshread", Params: "read=SR,opcap=4000,applyin=300", Quick: 8, Thorough: 200, Par: 8},
+			{Scen: "w2.lingering", Params: "et=300,hb=20,lease=100,opcap=100000", Quick: 8, Thorough: 200, Par: 8},
+			{Scen: "w2.leasevote", Params: "et=300,hb=20,lease=100,opcap=100000", Quick: 16, Thorough: 400, Par: 8},
+			{Scen: "w1", Params: "crash=1,reads=1,leasereads=1,et=600,hb=30,lease=100,steps=8", Quick: 8, Thorough: 200, Par: 8},
+		},
+		NT:     func(r *Result) bool { return offl(r, "LeaseReadsOK") > 0 },
+		Rule:   "lease-based reads are issued continuously at the old leader across partitions (from everyone / from the voters only, keeping a non-voter) and leader changes, with election timeout 600 ms, lease 100 ms, injected delay <= 15 ms per direction; successful lease reads are judged by the sequence-number staleness oracle (no clock), and a read invoked more than 5 lease durations after the last voter reply reached the old leader must not return data. Non-trivial: successful lease reads exist",
+		Assume: append([]string{"precondition measured per run: lease + max round trip + max stall < election timeout"}, windowAssume...)})
+
 	storeAssume := []string{
 		"crash model: process death — every completed write(2) persists, in order; images are synthesised by replaying the strace-recorded syscalls (self-validated: the full replay must be byte-identical to the directory the workload left)",
 		"byte prefixes of a write: all when <= 128 bytes, else the first/last 8 and every 64th",
